@@ -124,6 +124,10 @@ def attached_models(I, k=1, params=('T', 'P'), prefix='m'):
     for j in range(k):
         out.append(opaque_obj(I, '%s%d' % (prefix, j), {m: tuple(params) for m in MIX_QUANTITIES},
                               rewrite={'get_GoRT': twin('get_HoRT', 'get_SoR'), 'get_FoRT': twin('get_UoRT', 'get_SoR')}))
+        if j == 0:
+            out[-1].missing.add('name_j')              # like GasPressureAdj: refers to no other species
+        else:
+            out[-1].attrs['name_j'] = 'other%d' % j    # like a coverage effect: the species it refers to
     return ListV(out)
 
 
